@@ -21,7 +21,26 @@ static void runCase(const Case& c) {
 
     putCase(modelled(c.type) ? "mob" : "mobP", c);
     if (modelled(c.type)) { outX("X_FM", X_FM); outSV("V_FM", V_FM); }
+    // fit to an ARBITRARY (generally not representable) target velocity: the model predicts the projection chosen
+    if (hasFitU(c.type)) {
+        State sf = S->state;
+        for (int k = 0; k < m.getNumU(sf); ++k) m.setOneU(sf, k, 0.0);
+        m.setUToFitVelocity(sf, SpatialVec(Vec3(c.udot[0], c.udot[1], c.udot[2]), Vec3(c.udot[3], c.udot[4], c.udot[5])));
+        vh::Line l = vh::O("fitU"); for (int k = 0; k < m.getNumU(sf); ++k) l.d(m.getOneU(sf, k)); l.emit();
+    }
+    if (!c.rev && hasFitQtrans(c.type)) {
+        State sf = S->system.getDefaultState();
+        S->matter.setUseEulerAngles(sf, c.euler);
+        S->system.realizeModel(sf);
+        m.setQToFitTranslation(sf, c.station);
+        const int nq = m.getNumQ(sf);
+        int first = 0, cnt = 3;
+        switch (c.type) { case SLIDER: first = 0; cnt = 1; break; case TRANSLATION: first = 0; break; case CYLINDER: first = 1; cnt = 1; break;
+                          case PLANAR: first = 1; cnt = 2; break; default: first = nq - 3; }
+        vh::Line l = vh::O("fitQt"); for (int k = 0; k < cnt; ++k) l.d(m.getOneQ(sf, first + k)); l.emit();
+    }
     vh::D(c.tag());
+    if (!c.optTag().empty()) vh::D(c.optTag());
     const std::string key = std::string("C05.") + typeName[c.type] + (c.rev ? ".rev" : ".fwd") + (c.euler ? ".euler" : ".quat");
     // fit predicates: key = call site . input class (direction / option are in the D tag)
     std::string cls;
@@ -29,6 +48,10 @@ static void runCase(const Case& c) {
     if (c.type == ELLIPSOID) cls = (c.par[0] == c.par[1] && c.par[1] == c.par[2]) ? ".sphere" : ".nonsphere";
     if (c.type == SPHERICAL) cls = (c.par[2] < 0 || c.par[3] < 0 || c.par[4] < 0) ? ".negated" : ".plain";
     const std::string fkey = std::string("C05.") + typeName[c.type] + cls;
+    // setUToFitLinearVelocity on a REVERSED mobilizer assumes zero angular velocity (source TODO in RigidBodyNode.h):
+    // reversed types that have both rotational and translational speeds form their own input class for fit_v
+    const bool revRot = c.rev && (c.type == PLANAR || c.type == BUSHING || c.type == FREE || c.type == FREELINE || c.type == CANTILEVER);
+    const std::string vkey = revRot ? std::string("C05.reversedRotating") : fkey;
 
     // rotation part is a proper rotation
     { Mat33 R = X_FM.R(); double e = maxAbs(~R * R - Mat33(1));
@@ -69,6 +92,15 @@ static void runCase(const Case& c) {
         m.setUToFitVelocity(s3, V_FM);
         S->system.realize(s3, Stage::Velocity);
         vh::P("fit_u", fkey + ".fit_u", svDiff(m.getMobilizerVelocity(s3), V_FM), 1e-9);
+        // the three partial entry points, applied to the mobilizer's own current pose / velocity: the requested part
+        // must be reproduced (angular velocity by setUToFitAngularVelocity, linear by setUToFitLinearVelocity, origin
+        // offset by setQToFitTranslation)
+        { State s5 = S->state; m.setUToFitAngularVelocity(s5, V_FM[0]); S->system.realize(s5, Stage::Velocity);
+          vh::P("fit_w", fkey + ".fit_w", maxAbs(m.getMobilizerVelocity(s5)[0] - V_FM[0]) / std::max(1.0, maxAbs(V_FM[0])), 1e-9); }
+        { State s5 = S->state; m.setUToFitLinearVelocity(s5, V_FM[1]); S->system.realize(s5, Stage::Velocity);
+          vh::P("fit_v", vkey + ".fit_v", maxAbs(m.getMobilizerVelocity(s5)[1] - V_FM[1]) / std::max(1.0, maxAbs(V_FM[1])), 1e-9); }
+        { State s5 = S->state; m.setQToFitTranslation(s5, X_FM.p()); S->system.realize(s5, Stage::Position);
+          vh::P("fit_p", fkey + ".fit_p", maxAbs(m.getMobilizerTransform(s5).p() - X_FM.p()) / std::max(1.0, maxAbs(X_FM.p())), 1e-9); }
     }
 }
 
